@@ -1045,4 +1045,11 @@ theorem LInv.reachable {s : State} (h : Reachable s) : LInv s := by
   | init => exact LInv.init
   | step l hr hstep ih => exact ih.step (Ledger.reachable hr) hstep
 
+
+/-- What a tracker counted is backed by send-success results of PUT_VALUE / ADD_PROVIDER futures. -/
+theorem QuorumInv.reachable {s : State} (h : Reachable s) : QuorumInv s := by
+  induction h with
+  | init => exact ⟨fun _ hx => absurd hx (by simp), fun _ hr => absurd hr (by simp)⟩
+  | step l hr hstep ih => exact ih.step (LInv.reachable hr).noReq hstep
+
 end Litep2pVerif.Kad.Coordinator
